@@ -66,11 +66,29 @@ fn fresh(cfg: &Cfg) -> Generator {
     g
 }
 
+/// special "seeds" select fuzzer-bytes entropy instead of the PRNG: all-0x00, all-0xff, empty input
+pub const SRC_ZERO: u64 = u64::MAX;
+pub const SRC_FF: u64 = u64::MAX - 1;
+pub const SRC_EMPTY: u64 = u64::MAX - 2;
+
 fn force(g: &mut Generator, op: OpcodeKind, seed: u64) -> Result<Vec<u8>, String> {
     let before = g.output.len();
-    let mut rng = ChaCha8Rng::seed_from_u64(seed);
-    let mut src = GenerationSource::Rand(&mut rng);
-    g.verif_emit(op, &mut src).map_err(|e| format!("{e}"))?;
+    let r = if seed >= SRC_EMPTY {
+        let data: Vec<u8> = match seed {
+            SRC_ZERO => vec![0u8; 256],
+            SRC_FF => vec![0xffu8; 256],
+            _ => Vec::new(),
+        };
+        let mut u = arbitrary::Unstructured::new(&data);
+        // the source borrows `u` for its own lifetime parameter: scope it through a raw pointer
+        let mut src = GenerationSource::Arbitrary(unsafe { &mut *(&mut u as *mut arbitrary::Unstructured) });
+        g.verif_emit(op, &mut src)
+    } else {
+        let mut rng = ChaCha8Rng::seed_from_u64(seed);
+        let mut src = GenerationSource::Rand(&mut rng);
+        g.verif_emit(op, &mut src)
+    };
+    r.map_err(|e| format!("{e}"))?;
     if g.output.len() < before {
         return Err("output shrank".into());
     }
@@ -134,7 +152,7 @@ pub fn enumerate(ec: &EdgeCfg, out: &mut dyn Write) -> (usize, usize) {
                 // outcomes that differ only in argument payload are the same edge
                 let head: Vec<u8> = bytes.iter().take(1).cloned().collect();
                 let key = (
-                    if matches!(op, OpcodeKind::Get | OpcodeKind::BinGet | OpcodeKind::LongBinGet) { bytes.clone() } else { head },
+                    if seed >= SRC_EMPTY || matches!(op, OpcodeKind::Get | OpcodeKind::BinGet | OpcodeKind::LongBinGet) { bytes.clone() } else { head },
                     post.clone(),
                 );
                 if outcomes.contains_key(&key) {
